@@ -100,7 +100,10 @@ class G:
             kinds += ["if", "if", "while", "for"]
         if in_loop:
             kinds += ["brk"]
+        kinds += ["tup"]            # W5: tuple assignment to declared names (appended last)
         k = r.choice(kinds)
+        if k == "tup":
+            return self.tuple_stmt(inames, bnames)
         if k == "as":
             if bnames and r.random() < 0.3:
                 return ("as", r.choice(bnames), self.bool_expr(2, names))
@@ -139,6 +142,28 @@ class G:
                 body.append(("wr", ("bin", "add", ("v", iv), ("i", 0))))
             return ("for", iv, cnt, body)
         return ("if", self.bool_expr(1, names), [("brk",)], [])
+
+    def tuple_stmt(self, inames, bnames):
+        """('tup', [targets], [right-hand sides]): swap, rotation of three, Fibonacci-style update, or distinct targets of both types
+        with arbitrary right-hand sides of the target's type (every target is a declared name: the temporaries path of the transpiler)"""
+        r = self.rng
+        shape = r.choice(["swap", "swap", "rot", "fib", "mixed", "mixed"])
+        if shape == "rot" and len(inames) >= 3:
+            xs = r.sample(inames, 3)
+            return ("tup", xs, [("v", xs[1]), ("v", xs[2]), ("v", xs[0])])
+        if shape == "fib":
+            a, b = r.sample(inames, 2)
+            return ("tup", [a, b], [("v", b), ("bin", r.choice(["add", "add", "sub", "bxor"]), ("v", a), ("v", b))])
+        if shape == "mixed":
+            pool = r.sample(inames, r.randint(1, min(3, len(inames)))) + (r.sample(bnames, r.randint(1, len(bnames))) if bnames and r.random() < 0.6 else [])
+            if len(pool) >= 2:
+                r.shuffle(pool)
+                names = inames + bnames
+                return ("tup", pool, [self.bool_expr(1, names) if x in bnames else self.int_expr(1, inames) for x in pool])
+        if len(bnames) >= 2 and r.random() < 0.2:
+            return ("tup", list(bnames[:2]), [("v", bnames[1]), ("v", bnames[0])])
+        a, b = r.sample(inames, 2)
+        return ("tup", [a, b], [("v", b), ("v", a)])
 
     def new_assign(self, names, typ=None):
         """first assignment of a fresh name (int or bool), over the names visible so far"""
@@ -278,6 +303,7 @@ def py_block(block, ind):
         k = s[0]
         if k == "as": out.append(f"{pad}{s[1]} = {py_expr(s[2])}")
         elif k == "aug": out.append(f"{pad}{s[1]} {BIN[s[2]]}= {py_expr(s[3])}")
+        elif k == "tup": out.append(f"{pad}{', '.join(s[1])} = {', '.join(py_expr(e) for e in s[2])}")
         elif k == "wr": out.append(f"{pad}mon.write({py_expr(s[1])})")
         elif k == "sl": out.append(f"{pad}sleep({py_expr(s[1])})")
         elif k == "brk": out.append(f"{pad}break")
@@ -343,6 +369,7 @@ def sx_block(block):
     k = s[0]
     if k == "as": h = f"(as {s[1]} {sx_expr(s[2])})"
     elif k == "aug": h = f"(aug {s[1]} {s[2]} {sx_expr(s[3])})"
+    elif k == "tup": h = f"(tup ({' '.join(s[1])}) ({' '.join(sx_expr(e) for e in s[2])}))"
     elif k == "wr": h = f"(wr {sx_expr(s[1])})"
     elif k == "sl": h = f"(sl {sx_expr(s[1])})"
     elif k == "brk": h = "(brk)"
